@@ -488,9 +488,11 @@ def c09_containers(args):
             return 'container %s raised %s' % (name, type(e).__name__)
         if got != ref:
             return 'container %s gives different graphs' % name
-    if gs and indent is None and all(not g.metadata for g in gs):
+    if gs:
+        # other framings of the same graphs: a blank, a line break of any kind, or nothing between them
+        # (a later graph's first metadata comment then starts on the line the previous graph ends on)
         for sep in (' ', '\n', '', '\n\n', '\r\n', '\r'):
-            t2 = sep.join(penman.encode(g, model=model, indent=None) for g in gs)
+            t2 = sep.join(penman.encode(g, model=model, indent=indent) for g in gs)
             try:
                 if [gsig(g) for g in penman.loads(t2, model=model)] != ref:
                     return 'separator %r changes the graphs' % sep
